@@ -988,6 +988,13 @@ class CallMixin:
                 x = v.s.elem.fresh("m")
                 s1.assume(z3.ForAll([x.t], z3.Select(v.t, x.t) == z3.Contains(nv.t, z3.Unit(x.t))))
                 res.append((s1, nv))
+            elif isinstance(v.s, MapS) and not kw:
+                # sorted(dict): the keys
+                so = Seq(v.s.key)
+                nv = self.fresh(so, "sorted", s1)
+                x = v.s.key.fresh("m")
+                s1.assume(z3.ForAll([x.t], z3.Select(v.s.dom(v), x.t) == z3.Contains(nv.t, z3.Unit(x.t))))
+                res.append((s1, nv))
             elif v.s == POLY_LIST:
                 res.append((s1, v))
             else:
